@@ -40,6 +40,7 @@
 
 mod builders;
 mod date_time;
+mod int_field;
 mod exceptions;
 mod gen_server_terms;
 mod map_set;
